@@ -104,10 +104,24 @@ fn format_variant(
     let variant_dependencies = variant_type.dependencies;
     let inline_type = variant_type.inline;
 
+    // A tagged unit variant (and a tagged newtype variant whose field is skipped) is written as its
+    // name only. A type given with `as` does not appear in the binding then, and is no dependency.
+    let written_without_payload = !untagged_variant
+        && !matches!(enum_attr.tagged()?, Tagged::Untagged)
+        && match &variant.fields {
+            Fields::Unit => true,
+            Fields::Unnamed(unnamed) if unnamed.unnamed.len() == 1 => {
+                FieldAttr::from_attrs(&unnamed.unnamed[0].attrs)?.skip
+            }
+            _ => false,
+        };
+
     let parsed_ty = match (&variant_attr.type_as, &variant_attr.type_override) {
         (Some(_), Some(_)) => syn_err_spanned!(variant; "`type` is not compatible with `as`"),
         (Some(ty), None) => {
-            dependencies.push(ty);
+            if !written_without_payload {
+                dependencies.push(ty);
+            }
             quote!(<#ty as #crate_rename::TS>::name())
         }
         (None, Some(ty)) => quote!(#ty.to_owned()),
